@@ -257,8 +257,26 @@ class Interp2(Interp):
             return 20
         return None
 
+    def mk_len(self, t):
+        t = self.resolve_ite(self.rw(t))
+        if z3.is_app(t) and t.decl().kind() == z3.Z3_OP_ITE:
+            c = t.arg(0)
+            out = []
+            for cond, br in ((c, t.arg(1)), (z3.Not(c), t.arg(2))):
+                self.st.pc.append(cond)
+                try:
+                    out.append(self.mk_len(br))
+                finally:
+                    self.st.pc.pop()
+            return self.rw(z3.If(c, out[0], out[1]))
+        if z3.is_app(t) and t.decl().kind() == z3.Z3_OP_SEQ_EXTRACT:
+            base, o, l = t.arg(0), t.arg(1), t.arg(2)
+            if self.entails_cheap(z3.And(o >= 0, l >= 0, o + l <= z3.Length(base))):
+                return self.rw(l)
+        return z3.Length(t)
+
     def mk_nth(self, t, pos):
-        t = self.rw(t)
+        t = self.resolve_ite(self.rw(t))
         if z3.is_app(t) and t.decl().kind() == z3.Z3_OP_SEQ_EXTRACT:
             base, o, l = t.arg(0), t.arg(1), t.arg(2)
             if self.entails_cheap(z3.And(o >= 0, pos >= 0, pos < l, o + l <= z3.Length(base))):
